@@ -5,9 +5,21 @@
  3. our checks (the property's own, plus any extra ids given via SEED_CHECKS="C04,C10") run against the patched copy
  4. everything is stored under /verif/seeded/<ID>-<A|B>/ with meta.json"""
 import json, os, shutil, subprocess, sys, tempfile, time
-pid, which, demo_dest = sys.argv[1], sys.argv[2], sys.argv[3]
-demo_cmd = sys.argv[4:]
-src = "/tmp/wt_%s/_out/%s" % (pid, which)
+pid, which = sys.argv[1], sys.argv[2]
+outname = which
+if len(sys.argv) > 3 and sys.argv[3] == "--auto":
+    # round 2: deliverables in /tmp/wt2_<ID>/_out/<A|B>, HOWTO.txt starts with DEST: and RUN: lines; stored as <ID>-C / <ID>-D
+    src = "/tmp/wt2_%s/_out/%s" % (pid, which)
+    lines = open(os.path.join(src, "HOWTO.txt")).read().splitlines()
+    demo_dest = next(l for l in lines if l.startswith("DEST:")).split(":", 1)[1].strip()
+    runline = next(l for l in lines if l.startswith("RUN:")).split(":", 1)[1].strip()
+    import shlex
+    demo_cmd = [a for a in shlex.split(runline) if "=" not in a or not a.split("=")[0].isupper()]
+    outname = {"A": "C", "B": "D"}[which]
+else:
+    demo_dest = sys.argv[3]
+    demo_cmd = sys.argv[4:]
+    src = "/tmp/wt_%s/_out/%s" % (pid, which)
 env = dict(os.environ, GOFLAGS="-mod=mod", GOPROXY="off", GOSUMDB="off", GOTOOLCHAIN="local")
 def sh(cmd, cwd, timeout=1800):
     p = subprocess.run(cmd, cwd=cwd, env=env, stdout=subprocess.PIPE, stderr=subprocess.STDOUT, text=True, timeout=timeout)
@@ -34,7 +46,9 @@ try:
         dest = os.path.join(t, demo_dest)
         os.makedirs(os.path.dirname(dest), exist_ok=True)
         if os.path.isdir(demodir) and not demo:
-            shutil.copytree(demodir, dest)
+            if os.path.isdir(dest):
+                shutil.rmtree(dest)
+            shutil.copytree(demodir, dest if not dest.endswith(".go") else os.path.dirname(dest), dirs_exist_ok=True)
         else:
             shutil.copy(os.path.join(src, demo[0]), dest)
         rc, out = sh(demo_cmd, t)
@@ -51,7 +65,7 @@ try:
         keys = [l.strip()[:300] for l in p.stdout.splitlines() if l.strip().startswith("key=")]
         meta["checks"][c] = {"exit": p.returncode, "detected": p.returncode == 1, "keys": keys[:8], "summary": p.stdout.strip().splitlines()[-1][:300] if p.stdout.strip() else "", "wall_s": round(time.time() - t0, 1)}
         meta["ran"].append("VX_REPO=<patched copy> ./run %s %s -> exit %d" % (c, os.environ.get("SEED_TIER", "quick"), p.returncode))
-    outdir = "/verif/seeded/%s-%s" % (pid, which)
+    outdir = "/verif/seeded/%s-%s" % (pid, outname)
     if os.path.isdir(outdir):
         shutil.rmtree(outdir)
     os.makedirs(outdir)
